@@ -66,6 +66,18 @@ def families():
     F.append(("dae x'=-xz, 0=z-x", nDAE(M, lambda t, y, p: np.array([-y[0] * y[1], y[1] - y[0]]),
                                         lambda t, y, p: csc_array(np.array([[-y[1], -y[0]], [-1.0, 1.0]])), {}),
               np.array([1.0, 1.0]), lambda t: np.array([1 / (1 + t), 1 / (1 + t)]), 0.0, 5.0))
+    # forcing cos(w t) from t0 = 0: the explicit time derivative of the right-hand side vanishes at the start point (and the finite
+    # difference the solvers take there is exactly zero), it does not vanish later
+    for lam, w in ((1.0, 5.0), (50.0, 5.0)):
+        F.append((f"y'=-{lam:g}y+cos({w:g}t)", nDAE(csc_array(np.eye(1)), lambda t, y, p, lam=lam, w=w: np.array([-lam * y[0] + np.cos(w * t)]),
+                                                     lambda t, y, p, lam=lam: csc_array(np.array([[-lam]])), {}),
+                  np.array([lam / (lam ** 2 + w ** 2)]),
+                  lambda t, lam=lam, w=w: np.array([(lam * np.cos(w * t) + w * np.sin(w * t)) / (lam ** 2 + w ** 2)]), 0.0, 3.0))
+    w = 5.0
+    xw = lambda t, w=w: 2 * (2 * np.cos(w * t) + w * np.sin(w * t)) / (4 + w ** 2)
+    F.append(("dae x'=-x+z, 0=z+x-2cos(5t)", nDAE(M, lambda t, y, p, w=w: np.array([-y[0] + y[1], y[1] + y[0] - 2 * np.cos(w * t)]),
+                                                  lambda t, y, p: csc_array(np.array([[-1.0, 1.0], [1.0, 1.0]])), {}),
+              np.array([xw(0.0), 2.0 - xw(0.0)]), lambda t, w=w: np.array([xw(t), 2 * np.cos(w * t) - xw(t)]), 0.0, 3.0))
     return F
 
 
@@ -159,7 +171,7 @@ def run(rep, tier, seed):
                ("ode15s", lambda d, ts, y, o: ode15s(d, ts, y, Opt(**o)))]
     fam = families()
     if tier == "quick":
-        fam = [f for i, f in enumerate(fam) if i in (0, 2, 4, 5, 7, 8)]
+        fam = [f for i, f in enumerate(fam) if i in (0, 2, 4, 5, 7, 8, 10, 11)]
     for name, dae, y0, exact, t0, tend in fam:
         for rtol, atol in tols:
             for mode in ("two", "dense"):
@@ -184,6 +196,25 @@ def run(rep, tier, seed):
                         else:
                             fails.append((case, f"{sname} on {name}: error / (atol + rtol|y|) = {ratio:.3g} at t = {at} exceeds {bound} "
                                                 f"(rtol {rtol:g}, {mode}-node tspan)"))
+    # ---- ode15s with a user hmax well below the tolerance-driven step (the step stays pinned while the order changes)
+    for name, dae, y0, exact, t0, tend in fam:
+        if name.startswith(STIFF_FORCED):
+            continue
+        for hm in ((0.05,) if tier == "quick" else (0.1, 0.05, 0.02)):
+            for mode in ("two", "dense"):
+                tspan = [t0, tend] if mode == "two" else list(np.linspace(t0, tend, 41))
+                case = dict(problem=name, solver="ode15s", rtol=1e-3, atol=1e-6, hmax=hm, tspan=mode)
+                nruns += 1
+                try:
+                    sol = RC.quiet(ode15s, dae, tspan, y0.copy(), Opt(rtol=1e-3, atol=1e-6, hmax=hm))
+                except Exception as ex:  # noqa
+                    fails.append((case, f"ode15s raised {type(ex).__name__}: {str(ex)[:100]}")); continue
+                if getattr(sol.stats, "ret", None) == "failed":
+                    continue
+                ratio, at = ratio_of(sol, exact, 1e-3, 1e-6)
+                table[("ode15s", "hmax-" + mode, 1e-3)] = max(table.get(("ode15s", "hmax-" + mode, 1e-3), 0.0), ratio)
+                if not ratio <= 100.0:
+                    fails.append((case, f"ode15s on {name} with hmax = {hm}: error / (atol + rtol|y|) = {ratio:.3g} at t = {at} exceeds 100"))
     # ---- a fast but smooth nonlinear transition: the end point is swept across its onset (step cuts on the last step)
     from scipy.integrate import solve_ivp
     from scipy.sparse import csc_array
